@@ -178,7 +178,9 @@ def check_day(o):
     iso = d.isoweekday()  # Monday 1 .. Sunday 7
     exp = [('YEAR(%s)' % D, d.year), ('MONTH(%s)' % D, d.month), ('DAY(%s)' % D, d.day),
            ('WEEKDAY(%s)' % D, iso % 7 + 1), ('WEEKDAY(%s,1)' % D, iso % 7 + 1), ('WEEKDAY(%s,2)' % D, iso),
-           ('WEEKDAY(%s,3)' % D, iso - 1), ('WEEKDAY(%s,4)' % D, '#NUM!'), ('WEEKDAY(%s,0)' % D, '#NUM!')]
+           ('WEEKDAY(%s,3)' % D, iso - 1), ('WEEKDAY(%s,4)' % D, '#NUM!'), ('WEEKDAY(%s,0)' % D, '#NUM!'),
+           ('WEEKDAY(%s,0-1)' % D, '#NUM!'), ('WEEKDAY(%s,0-2)' % D, '#NUM!'), ('WEEKDAY(%s,0-3)' % D, '#NUM!'), ('WEEKDAY(%s,0-4)' % D, '#NUM!'),
+           ('WEEKDAY(%s,5)' % D, '#NUM!'), ('WEEKDAY(%s,100)' % D, '#NUM!')]
     if o >= ORD_MAR1:
         n = o - D0
         exp += [('YEAR(%d)' % n, d.year), ('MONTH(%d)' % n, d.month), ('DAY(%d)' % n, d.day)]
